@@ -176,7 +176,7 @@ func buildFixture() *schemabuilder.Schema {
 	leaf := s.Object("Leaf", Leaf{})
 	leaf.Key("id")
 	leaf.FieldFunc("upper", func(l *Leaf) string { return strings.ToUpper(l.Name) })
-	other := s.Object("Other", Other{})
+	other := s.Object("Alt", Other{}) // registered under another name than its Go type's
 	// same field name as Leaf.id (a scalar there), but an object here
 	other.FieldFunc("id", func(o *Other) *Leaf { return &Leaf{int64(o.Code), "of-other"} })
 	s.Mutation().FieldFunc("noop", func() bool { return true })
